@@ -6,7 +6,7 @@ CONSTANTS
   GroupAuthz = TRUE
   Callers = {"alice", "bob"}
   DeepReload = TRUE
-  Canon = FALSE
+  Canon = TRUE
   LenSet = {0, 1}
   PolicyClients = {"alice"}
 VIEW MCView
